@@ -24,28 +24,58 @@ FLAT = {"Point", "Line", "HalfLine", "Segment", "Plane"}
 BODY = {"ConvexPolygon", "ConvexPolyhedron"}
 
 
-def handler_bindings(ctx) -> Dict[str, Tuple[str, str]]:
-    """handler function name -> (type of parameter 0, type of parameter 1), from the dispatcher"""
-    if "handler_bindings" in ctx.cache:
-        return ctx.cache["handler_bindings"]
+def handler_bindings_all(ctx) -> Dict[str, Set[Tuple[str, str]]]:
+    """handler function name -> set of (type of parameter 0, type of parameter 1) it is bound to from the dispatcher
+    (one pair for a dedicated handler, several for a handler shared by different operand types)"""
+    if "handler_bindings_all" in ctx.cache:
+        return ctx.cache["handler_bindings_all"]
+    from ..types import show
     inter, rets, raises, info = dispatch_info(ctx)
-    out: Dict[str, Tuple[str, str]] = {}
+    out: Dict[str, Set[Tuple[str, str]]] = {}
     for (ta, tb), d in info.items():
         if ta == "None" or tb == "None":
             continue
         for r, h, pt, an in d["returns"]:
             if h is None or pt is None or len(pt) != 2:
                 continue
-            from ..types import show
-            out[h.split(":")[-1]] = (show(pt[0]), show(pt[1]))
-    ctx.cache["handler_bindings"] = out
+            out.setdefault(h.split(":")[-1], set()).add((show(pt[0]), show(pt[1])))
+    ctx.cache["handler_bindings_all"] = out
     return out
+
+
+def handler_bindings(ctx) -> Dict[str, Tuple[str, str]]:
+    """handler function name -> its binding (the first one in sorted order if it is shared)"""
+    return {k: sorted(v)[0] for k, v in handler_bindings_all(ctx).items()}
 
 
 def handlers_of(ctx, pred) -> List[FunctionInfo]:
     handlers, helpers, inter = handler_functions(ctx)
-    hb = handler_bindings(ctx)
-    return [f for f in handlers if f.name in hb and pred(hb[f.name])]
+    hb = handler_bindings_all(ctx)
+    sel = [f for f in handlers if f.name in hb and any(pred(t) for t in hb[f.name])]
+    # private two-operand helpers that only these handlers call (e.g. a shared `_inter_crossing_linears`) belong to them
+    eng = ctx.types
+    by_qual = {f.qual: f for f in handlers}
+    callers: Dict[str, Set[str]] = {}
+    for (q, _), tgs in eng.call_targets.items():
+        for t in tgs:
+            callers.setdefault(t, set()).add(q)
+    changed = True
+    while changed:
+        changed = False
+        chosen = {f.qual for f in sel}
+        for f in handlers:
+            if f.qual in chosen or f.name in hb:
+                continue
+            cs = {c for c in callers.get(f.qual, ()) if c != f.qual}
+            if cs and cs <= chosen:
+                sel.append(f)
+                changed = True
+    return sel
+
+
+def covered_pairs(ctx, pred) -> Set[frozenset]:
+    """unordered operand-type pairs (satisfying pred) that reach some handler"""
+    return {frozenset(t) for ts in handler_bindings_all(ctx).values() for t in ts if pred(t)}
 
 
 def point_fields(ctx, cname: str) -> List[str]:
@@ -69,6 +99,8 @@ def r12_endpoint_candidates(ctx, res):
     hb = handler_bindings(ctx)
     n = 0
     for fi in handlers_of(ctx, lambda t: t[0] in ("Segment", "HalfLine") and t[1] in ("Segment", "HalfLine")):
+        if fi.name not in hb:
+            continue  # a private helper of such a handler: its candidates are accounted for in the handlers that call it
         ta, tb = hb[fi.name]
         a, b = fi.params[:2]
         required = []
@@ -148,7 +180,7 @@ def run(ctx, res):
     )
     cf = run_confinement(ctx)
     hs = handlers_of(ctx, lambda t: t[0] in FLAT and t[1] in FLAT)
-    ctx.require(res, "R1.1", len(hs), 15, "flat x flat handlers")
+    ctx.require(res, "R1.1", len(covered_pairs(ctx, lambda t: t[0] in FLAT and t[1] in FLAT)), 15, "flat x flat operand pairs bound to a handler")
     total = 0
     for fi in hs:
         total += report_function(ctx, res, cf, fi, "R1.1")
